@@ -46,6 +46,7 @@ type SAddr struct{ X SExpr }
 type SIte struct{ C, A, B SExpr }
 
 type Clause struct {
+	Kind  string // "" | "typeinv" (assumed at entry, not asserted by callers; proved at exit) | "ghostdef" (defines the ghost state at exit)
 	Site  string // for assert clauses: "call <name>#k"
 	Label string
 	Props []string
@@ -96,6 +97,10 @@ type FuncContract struct {
 	AsmLabels map[string]*LoopContract // assembly: invariants by label
 	IsAsm     bool
 	AllocBound *Clause
+	GhostEntry  bool     // the ghost update happens at entry (ghostdef clauses are then proved at exit like any ensures)
+	InlineCalls []string // callees whose body is inlined here although they have a contract of their own
+	Opaque     []string // defined spec functions treated as uninterpreted in this function's obligations
+	Ghost      []string // ghost lvalues (Xxh(x) ...) re-defined at exit by the ghostdef clauses
 }
 
 var tokRe = regexp.MustCompile(`^(\s+|==>|<==>|::|&&|\|\||==|!=|<=|>=|<<|>>|&\^|[-+*/%&|^<>!()\[\]:.,?]|0x[0-9a-fA-F_]+|[0-9][0-9_]*|[A-Za-z_][A-Za-z0-9_$@]*)`)
@@ -606,9 +611,22 @@ func loadContractFile(file string, out map[string]*FuncContract) error {
 			for _, m := range splitTopLevel(rest) {
 				cur.Modifies = append(cur.Modifies, m)
 			}
-		case "requires", "ensures", "onpanic", "invariant", "decreases", "writes", "assert", "lemma", "alloc-bound":
+		case "opaque":
+			cur.Opaque = append(cur.Opaque, strings.Fields(rest)...)
+		case "inline-calls":
+			cur.InlineCalls = append(cur.InlineCalls, strings.Fields(rest)...)
+		case "ghost-entry":
+			cur.GhostEntry = true
+			for _, m := range splitTopLevel(rest) {
+				cur.Ghost = append(cur.Ghost, m)
+			}
+		case "ghost":
+			for _, m := range splitTopLevel(rest) {
+				cur.Ghost = append(cur.Ghost, m)
+			}
+		case "requires", "ensures", "onpanic", "invariant", "decreases", "writes", "assert", "lemma", "alloc-bound", "typeinv", "typeinv-entry", "ghostdef", "assumes", "rely":
 			site := ""
-			if kw == "assert" {
+			if kw == "assert" || kw == "rely" {
 				i := strings.LastIndex(rest, " @ ")
 				if i < 0 {
 					return fail(fmt.Errorf("assert needs `@ call name#k`"))
@@ -622,6 +640,27 @@ func loadContractFile(file string, out map[string]*FuncContract) error {
 				return fail(err)
 			}
 			switch kw {
+			case "typeinv":
+				c.Kind = "typeinv"
+				cur.Requires = append(cur.Requires, c)
+				cur.Ensures = append(cur.Ensures, c)
+			case "rely":
+				// goroutine fragment only: a fact about values another goroutine hands over, assumed
+				// at the site (part of the rely condition, listed among the assumptions)
+				c.Kind = "rely"
+				cur.Asserts = append(cur.Asserts, c)
+			case "assumes":
+				// a physical bound no caller can (or needs to) establish: assumed by the function,
+				// not asserted at call sites, listed among the assumptions of every check that uses it
+				c.Kind = "assumed"
+				cur.Requires = append(cur.Requires, c)
+			case "typeinv-entry":
+				// a value receiver: the object is a private copy that dies at return
+				c.Kind = "typeinv"
+				cur.Requires = append(cur.Requires, c)
+			case "ghostdef":
+				c.Kind = "ghostdef"
+				cur.Ensures = append(cur.Ensures, c)
 			case "requires":
 				cur.Requires = append(cur.Requires, c)
 			case "ensures":
